@@ -83,6 +83,10 @@ func memoizerCheck(c *core.Ctx, p *packages.Package, fd *ast.FuncDecl) (isMemo b
 			if sel, ok := ast.Unparen(call.Fun).(*ast.SelectorExpr); ok && sel.Sel.Name == "Do" && objOf(info, sel.X) == once && len(call.Args) == 1 {
 				doCall = call
 				doLit, _ = ast.Unparen(call.Args[0]).(*ast.FuncLit)
+				if doLit == nil {
+					// once.Do(compute) with `compute := func() { … }` bound once in the memoiser
+					doLit = resolveLit(info, fd, call.Args[0])
+				}
 			}
 		}
 		return true
